@@ -198,7 +198,8 @@ fn p_c01(rng: &mut Rng, tier: Tier) -> Profile {
         Tier::Thorough => *rng.pick(&[20usize, 100, 500, 2000, 5000]),
     };
     p.conns = rng.range(1, 3) as usize;
-    p.max_value = *rng.pick(&[16usize, 64, 300, 3000]);
+    // (values beyond 4096 bytes cross the connection's initial buffer size)
+    p.max_value = *rng.pick(&[16usize, 64, 300, 3000, 9000]);
     if tier == Tier::Thorough && rng.chance(1, 12) {
         // values up to (almost) the item size limit
         p.max_value = *rng.pick(&[60_000usize, 1_000_000]);
